@@ -160,7 +160,7 @@ def c_arc_eq(m, st, f, a):
 
 
 # ---------------------------------------------------------------------------------------------- Option / Result
-@contract(r'Option::<.*>::(is_some|is_none)$')
+@contract(r'^(std::option::|core::option::)?Option::<.*>::(is_some|is_none)$')
 def c_opt_is(m, st, f, a):
     o = sv(a[0])
     want = 1 if f.endswith('is_some') else 0
@@ -168,13 +168,13 @@ def c_opt_is(m, st, f, a):
     return o.disc == z3.BitVecVal(want, o.disc.size())
 
 
-@contract(r'Result::<.*>::(is_ok|is_err)$')
+@contract(r'^(std::result::|core::result::)?Result::<.*>::(is_ok|is_err)$')
 def c_res_is(m, st, f, a):
     o = sv(a[0]); want = 0 if f.endswith('is_ok') else 1
     return disc_of(m, st, o) == want
 
 
-@contract(r'Option::<.*>::(as_ref|as_mut|as_deref|as_deref_mut)$')
+@contract(r'^(std::option::|core::option::)?Option::<.*>::(as_ref|as_mut|as_deref|as_deref_mut)$')
 def c_opt_as_ref(m, st, f, a):
     r = a[0]; o = deref(r)
     k = disc_of(m, st, o)
@@ -186,34 +186,34 @@ def c_opt_as_ref(m, st, f, a):
     return some(inner)
 
 
-@contract(r'Option::<&(mut )?.*>::(copied|cloned)$')
+@contract(r'^(std::option::|core::option::)?Option::<&(mut )?.*>::(copied|cloned)$')
 def c_opt_copied(m, st, f, a):
     o = a[0]; k = disc_of(m, st, o)
     if k == 0: return none()
     return some(copy_val(deref(payload0(o))))
 
 
-@contract(r'Option::<.*>::(unwrap|expect)$')
+@contract(r'^(std::option::|core::option::)?Option::<.*>::(unwrap|expect)$')
 def c_opt_unwrap(m, st, f, a):
     o = a[0]
     if disc_of(m, st, o) == 0: raise Panic('called `Option::unwrap()` on a `None` value')
     return payload0(o)
 
 
-@contract(r'Option::<.*>::unwrap_unchecked$')
+@contract(r'^(std::option::|core::option::)?Option::<.*>::unwrap_unchecked$')
 def c_opt_unwrap_unchecked(m, st, f, a):
     o = a[0]
     if disc_of(m, st, o) == 0: raise Panic('UB: unwrap_unchecked on None')
     return payload0(o)
 
 
-@contract(r'Option::<.*>::unwrap_or$')
+@contract(r'^(std::option::|core::option::)?Option::<.*>::unwrap_or$')
 def c_opt_unwrap_or(m, st, f, a):
     o = a[0]
     return a[1] if disc_of(m, st, o) == 0 else payload0(o)
 
 
-@contract(r'Option::<.*>::unwrap_or_default$')
+@contract(r'^(std::option::|core::option::)?Option::<.*>::unwrap_or_default$')
 def c_opt_unwrap_or_default(m, st, f, a):
     o = a[0]
     if disc_of(m, st, o) == 1: return payload0(o)
@@ -226,24 +226,24 @@ def c_opt_unwrap_or_default(m, st, f, a):
     raise Inconclusive('unwrap_or_default of ' + t)
 
 
-@contract(r'Option::<.*>::take$')
+@contract(r'^(std::option::|core::option::)?Option::<.*>::take$')
 def c_opt_take(m, st, f, a):
     old = deref(a[0]); store(a[0], none()); return old
 
 
-@contract(r'Option::<.*>::(ok_or)::<')
+@contract(r'^(std::option::|core::option::)?Option::<.*>::(ok_or)::<')
 def c_opt_ok_or(m, st, f, a):
     o = a[0]
     return err(a[1]) if disc_of(m, st, o) == 0 else ok(payload0(o))
 
 
-@contract(r'Result::<.*>::ok$')
+@contract(r'^(std::result::|core::result::)?Result::<.*>::ok$')
 def c_res_ok(m, st, f, a):
     o = a[0]
     return some(payload0(o, 0)) if disc_of(m, st, o) == 0 else none()
 
 
-@contract(r'Result::<.*>::(unwrap|expect)$')
+@contract(r'^(std::result::|core::result::)?Result::<.*>::(unwrap|expect)$')
 def c_res_unwrap(m, st, f, a):
     o = a[0]
     if disc_of(m, st, o) != 0: raise Panic('called `Result::unwrap()` on an `Err` value')
@@ -265,7 +265,7 @@ def strip_g(s):
     return strip_generics(s)
 
 
-@contract(r'Option::<.*>::map::<')
+@contract(r'^(std::option::|core::option::)?Option::<.*>::map::<')
 def c_opt_map(m, st, f, a):
     o, clo = a
     if disc_of(m, st, o) == 0: return none()
@@ -274,47 +274,47 @@ def c_opt_map(m, st, f, a):
     return call_then(m, st, clo, [payload0(o)], lambda m, st, s, r: some(r))
 
 
-@contract(r'Option::<.*>::map_or::<')
+@contract(r'^(std::option::|core::option::)?Option::<.*>::map_or::<')
 def c_opt_map_or(m, st, f, a):
     o, dflt, clo = a
     if disc_of(m, st, o) == 0: return dflt
     return call_then(m, st, clo, [payload0(o)], lambda m, st, s, r: r)
 
 
-@contract(r'Option::<.*>::map_or_else::<')
+@contract(r'^(std::option::|core::option::)?Option::<.*>::map_or_else::<')
 def c_opt_map_or_else(m, st, f, a):
     o, dclo, clo = a
     if disc_of(m, st, o) == 0: return call_then(m, st, dclo, [], lambda m, st, s, r: r)
     return call_then(m, st, clo, [payload0(o)], lambda m, st, s, r: r)
 
 
-@contract(r'Option::<.*>::and_then::<')
+@contract(r'^(std::option::|core::option::)?Option::<.*>::and_then::<')
 def c_opt_and_then(m, st, f, a):
     o, clo = a
     if disc_of(m, st, o) == 0: return none()
     return call_then(m, st, clo, [payload0(o)], lambda m, st, s, r: r)
 
 
-@contract(r'Option::<.*>::(or_else|unwrap_or_else)::<')
+@contract(r'^(std::option::|core::option::)?Option::<.*>::(or_else|unwrap_or_else)::<')
 def c_opt_or_else(m, st, f, a):
     o, clo = a
     if disc_of(m, st, o) == 1: return o if '::or_else' in f else payload0(o)
     return call_then(m, st, clo, [], lambda m, st, s, r: r)
 
 
-@contract(r'Option::<.*>::or$')
+@contract(r'^(std::option::|core::option::)?Option::<.*>::or$')
 def c_opt_or(m, st, f, a):
     return a[0] if disc_of(m, st, a[0]) == 1 else a[1]
 
 
-@contract(r'Result::<.*>::unwrap_or_else::<')
+@contract(r'^(std::result::|core::result::)?Result::<.*>::unwrap_or_else::<')
 def c_res_unwrap_or_else(m, st, f, a):
     o, clo = a
     if disc_of(m, st, o) == 0: return payload0(o, 0)
     return call_then(m, st, clo, [payload0(o, 1)], lambda m, st, s, r: r)
 
 
-@contract(r'Result::<.*>::(map|map_err)::<')
+@contract(r'^(std::result::|core::result::)?Result::<.*>::(map|map_err)::<')
 def c_res_map(m, st, f, a):
     o, clo = a
     k = disc_of(m, st, o)
@@ -328,7 +328,7 @@ def _then_filter(m, st, saved, r):
     return some(saved) if b else none()
 
 
-@contract(r'Option::<.*>::filter::<')
+@contract(r'^(std::option::|core::option::)?Option::<.*>::filter::<')
 def c_opt_filter(m, st, f, a):
     o, clo = a
     if disc_of(m, st, o) == 0: return none()
@@ -336,40 +336,40 @@ def c_opt_filter(m, st, f, a):
     return call_then(m, st, clo, [Ref(Cell(x))], _then_filter, x)
 
 
-@contract(r'Option::<.*>::is_some_and::<')
+@contract(r'^(std::option::|core::option::)?Option::<.*>::is_some_and::<')
 def c_opt_is_some_and(m, st, f, a):
     o, clo = a
     if disc_of(m, st, o) == 0: return False
     return call_then(m, st, clo, [payload0(o)], lambda m, st, s, r: r)
 
 
-@contract(r'Option::<.*>::is_none_or::<')
+@contract(r'^(std::option::|core::option::)?Option::<.*>::is_none_or::<')
 def c_opt_is_none_or(m, st, f, a):
     o, clo = a
     if disc_of(m, st, o) == 0: return True
     return call_then(m, st, clo, [payload0(o)], lambda m, st, s, r: r)
 
 
-@contract(r'<(std::option::)?Option<.*> as (Clone)>::clone$')
+@contract(r'^<(std::option::)?Option<.*> as (Clone)>::clone$')
 def c_opt_clone(m, st, f, a): return copy_val(deref(a[0]))
 
 
-@contract(r'<(std::option::)?Option<.*> as Default>::default$')
+@contract(r'^<(std::option::)?Option<.*> as Default>::default$')
 def c_opt_default(m, st, f, a): return none()
 
 
-@contract(r'bool::<impl bool>::then_some::<')
+@contract(r'^([a-z_]+::)*bool::<impl bool>::then_some::<')
 def c_then_some(m, st, f, a):
     return some(a[1]) if bool_val(m, st, a[0]) else none()
 
 
-@contract(r'bool::<impl bool>::then::<')
+@contract(r'^([a-z_]+::)*bool::<impl bool>::then::<')
 def c_bool_then(m, st, f, a):
     if not bool_val(m, st, a[0]): return none()
     return call_then(m, st, a[1], [], lambda m, st, s, r: some(r))
 
 
-@contract(r'as Try>::branch$')
+@contract(r'^<.* as Try>::branch$')
 def c_try_branch(m, st, f, a):
     o = a[0]; k = disc_of(m, st, o)
     if o.ty == 'Option':
@@ -377,7 +377,7 @@ def c_try_branch(m, st, f, a):
     return Enum('ControlFlow', 0, {0: Agg([payload0(o, 0)])}) if k == 0 else Enum('ControlFlow', 1, {1: Agg([err(payload0(o, 1))])})
 
 
-@contract(r'as FromResidual<.*>>::from_residual$')
+@contract(r'^<.* as FromResidual<.*>>::from_residual$')
 def c_from_residual(m, st, f, a): return a[0]
 
 
@@ -407,7 +407,7 @@ def c_int_cmp(m, st, f, a):
     return some(e) if f.endswith('partial_cmp') else e
 
 
-@contract(r'num::<impl (u8|u16|u32|u64|usize|i32|i64|isize)>::(saturating_sub|saturating_add|wrapping_add|wrapping_sub|wrapping_mul)$')
+@contract(r'^([a-z_]+::)*num::<impl (u8|u16|u32|u64|usize|i32|i64|isize)>::(saturating_sub|saturating_add|wrapping_add|wrapping_sub|wrapping_mul)$')
 def c_int_sat(m, st, f, a):
     x, y = a; ty = x.ty
     if 'wrapping_add' in f: return binop('Add', x, y)
@@ -423,7 +423,7 @@ def c_int_sat(m, st, f, a):
     return IntV(z3.If(z3.ULT(zx + zy, zx), z3.BitVecVal((1 << w) - 1, w), zx + zy), ty)
 
 
-@contract(r'num::<impl (u8|u16|u32|u64|usize|i32|i64|isize)>::(checked_sub|checked_add)$')
+@contract(r'^([a-z_]+::)*num::<impl (u8|u16|u32|u64|usize|i32|i64|isize)>::(checked_sub|checked_add)$')
 def c_int_checked(m, st, f, a):
     x, y = a
     r = binop('SubWithOverflow' if 'checked_sub' in f else 'AddWithOverflow', x, y)
@@ -460,7 +460,7 @@ def c_int_from(m, st, f, a):
 def c_prim_clone(m, st, f, a): return deref(a[0])
 
 
-@contract(r'char::methods::<impl char>::(len_utf8|len_utf16)$')
+@contract(r'^([a-z_]+::)*char::methods::<impl char>::(len_utf8|len_utf16)$')
 def c_char_len(m, st, f, a):
     c = a[0]
     k = conc_int(c)
@@ -474,14 +474,14 @@ def c_char_len(m, st, f, a):
 def c_vec_new(m, st, f, a): return vec([])
 
 
-@contract(r'^Vec::<.*>::(len)$|slice::<impl \[.*\]>::len$|^VecDeque::<.*>::len$')
+@contract(r'^Vec::<.*>::(len)$|^([a-z_]+::)*slice::<impl \[.*\]>::len$|^VecDeque::<.*>::len$')
 def c_vec_len(m, st, f, a):
     v = sv(a[0])
     if isinstance(v, StrV): return IntV(v.len, 'usize')
     return IntV(len(v.f), 'usize')
 
 
-@contract(r'^Vec::<.*>::is_empty$|slice::<impl \[.*\]>::is_empty$|^VecDeque::<.*>::is_empty$')
+@contract(r'^Vec::<.*>::is_empty$|^([a-z_]+::)*slice::<impl \[.*\]>::is_empty$|^VecDeque::<.*>::is_empty$')
 def c_vec_is_empty(m, st, f, a):
     v = sv(a[0])
     if isinstance(v, StrV): return v.len == 0
@@ -524,7 +524,7 @@ def c_vec_reserve(m, st, f, a): return UNIT
 def c_vec_as_slice(m, st, f, a): return a[0]
 
 
-@contract(r'^<Vec<.*> as Clone>::clone$|slice::<impl \[.*\]>::to_vec$|^<\[.*\] as ToOwned>::to_owned$', 4)
+@contract(r'^<Vec<.*> as Clone>::clone$|^([a-z_]+::)*slice::<impl \[.*\]>::to_vec$|^<\[.*\] as ToOwned>::to_owned$', 4)
 def c_vec_clone(m, st, f, a):
     v = sv(a[0])
     if isinstance(v, StrV): return vec([IntV(b, 'u8') for b in v.bytes()])
@@ -595,7 +595,7 @@ def c_bytes_index_range(m, st, f, a):
     return Ref(Cell(Agg(v.f[x:y])))
 
 
-@contract(r'slice::<impl \[.*\]>::(get|get_mut)::<usize>$')
+@contract(r'^([a-z_]+::)*slice::<impl \[.*\]>::(get|get_mut)::<usize>$')
 def c_slice_get(m, st, f, a):
     v, r = seq_of(a[0])
     if isinstance(v, StrV):
@@ -605,7 +605,7 @@ def c_slice_get(m, st, f, a):
     return some(elem_ref(r, k)) if k < len(v.f) else none()
 
 
-@contract(r'slice::<impl \[.*\]>::(get_unchecked|get_unchecked_mut)::<usize>$')
+@contract(r'^([a-z_]+::)*slice::<impl \[.*\]>::(get_unchecked|get_unchecked_mut)::<usize>$')
 def c_slice_get_unchecked(m, st, f, a):
     v, r = seq_of(a[0])
     n = v.len if isinstance(v, StrV) else len(v.f)
@@ -615,7 +615,7 @@ def c_slice_get_unchecked(m, st, f, a):
     return elem_ref(r, k)
 
 
-@contract(r'slice::<impl \[.*\]>::(first|last)(_mut)?$')
+@contract(r'^([a-z_]+::)*slice::<impl \[.*\]>::(first|last)(_mut)?$')
 def c_slice_first_last(m, st, f, a):
     v, r = seq_of(a[0])
     if not v.f: return none()
@@ -681,14 +681,14 @@ def c_vec_extend_iter(m, st, f, a):
 def c_vec_into_iter(m, st, f, a): return Iter(list(a[0].f))
 
 
-@contract(r'^<&(mut )?(Vec<.*>|\[.*\]) as IntoIterator>::into_iter$|slice::<impl \[.*\]>::iter(_mut)?$|^VecDeque::<.*>::iter$')
+@contract(r'^<&(mut )?(Vec<.*>|\[.*\]) as IntoIterator>::into_iter$|^([a-z_]+::)*slice::<impl \[.*\]>::iter(_mut)?$|^VecDeque::<.*>::iter$')
 def c_slice_iter(m, st, f, a):
     v, r = seq_of(a[0])
     if isinstance(v, StrV): return Iter([Ref(Cell(IntV(b, 'u8'))) for b in v.bytes()])
     return Iter([elem_ref(r, k) for k in range(len(v.f))])
 
 
-@contract(r'slice::<impl \[.*\]>::concat::<')
+@contract(r'^([a-z_]+::)*slice::<impl \[.*\]>::concat::<')
 def c_slice_concat(m, st, f, a):
     v = sv(a[0]); out = []
     for x in v.f:
@@ -699,7 +699,7 @@ def c_slice_concat(m, st, f, a):
     return vec(out)
 
 
-@contract(r'slice::<impl \[.*\]>::(binary_search_by|partition_point)::<')
+@contract(r'^([a-z_]+::)*slice::<impl \[.*\]>::(binary_search_by|partition_point)::<')
 def c_binary_search_by(m, st, f, a):
     v, r = seq_of(a[0])
     st.frames.append(BinSearch(r, len(v.f), a[1], 'partition' in f, m.cur_ret))
@@ -790,7 +790,7 @@ def c_range_for_each(m, st, f, a):
     return drive_iter(m, st, Iter(items), 'for_each', clo)
 
 
-@contract(r' as Iterator>::(map|filter|filter_map|enumerate|take|skip|rev|peekable|copied|cloned|chain|zip|take_while|skip_while|flat_map|flatten|inspect|by_ref)(::<.*)?$', 7)
+@contract(r'^<.* as Iterator>::(map|filter|filter_map|enumerate|take|skip|rev|peekable|copied|cloned|chain|zip|take_while|skip_while|flat_map|flatten|inspect|by_ref)(::<.*)?$', 7)
 def c_iter_adapt(m, st, f, a):
     it = a[0]
     op = re.search(r' as Iterator>::(\w+)', f).group(1)
@@ -991,7 +991,7 @@ def drive_iter(m, st, it, mode, arg, fname=''):
     return PUSHED
 
 
-@contract(r' as Iterator>::next$', 8)
+@contract(r'^<.* as Iterator>::next$', 8)
 def c_iter_next(m, st, f, a):
     it = sv(a[0])
     if isinstance(it, Iter):
@@ -1003,7 +1003,7 @@ def c_iter_next(m, st, f, a):
     return NotImplemented
 
 
-@contract(r' as DoubleEndedIterator>::next_back$', 8)
+@contract(r'^<.* as DoubleEndedIterator>::next_back$', 8)
 def c_iter_next_back(m, st, f, a):
     it = sv(a[0])
     if isinstance(it, Iter) and not it.ops:
@@ -1012,16 +1012,16 @@ def c_iter_next_back(m, st, f, a):
     return NotImplemented
 
 
-@contract(r' as Iterator>::for_each::<', 8)
+@contract(r'^<.* as Iterator>::for_each::<', 8)
 def c_iter_for_each(m, st, f, a): return drive_iter(m, st, a[0], 'for_each', a[1], f)
 
 
-@contract(r' as Iterator>::(any|all|find|position|find_map)::<', 8)
+@contract(r'^<.* as Iterator>::(any|all|find|position|find_map)::<', 8)
 def c_iter_any(m, st, f, a):
     return drive_iter(m, st, a[0], re.search(r'Iterator>::(\w+)', f).group(1), a[1], f)
 
 
-@contract(r' as Iterator>::fold::<', 8)
+@contract(r'^<.* as Iterator>::fold::<', 8)
 def c_iter_fold(m, st, f, a):
     base = sv(a[0]) if isinstance(a[0], Ref) else a[0]
     if not isinstance(base, Iter): base = crate_iter(m, f, a[0])
@@ -1030,17 +1030,17 @@ def c_iter_fold(m, st, f, a):
     st.frames.append(d); return PUSHED
 
 
-@contract(r' as Iterator>::(count|last|max|min)$', 8)
+@contract(r'^<.* as Iterator>::(count|last|max|min)$', 8)
 def c_iter_count(m, st, f, a):
     return drive_iter(m, st, a[0], re.search(r'Iterator>::(\w+)$', f).group(1), None, f)
 
 
-@contract(r' as Iterator>::sum::<(\w+)>$', 8)
+@contract(r'^<.* as Iterator>::sum::<(\w+)>$', 8)
 def c_iter_sum(m, st, f, a):
     return drive_iter(m, st, a[0], 'sum', re.search(r'sum::<(\w+)>$', f).group(1), f)
 
 
-@contract(r' as Iterator>::collect::<(.*)>$', 8)
+@contract(r'^<.* as Iterator>::collect::<(.*)>$', 8)
 def c_iter_collect(m, st, f, a):
     tgt = re.search(r'collect::<(.*)>$', f).group(1)
     if tgt.startswith('Vec<') or tgt.startswith('VecDeque<'): mk = None
@@ -1136,7 +1136,7 @@ def c_once_clone(m, st, f, a): return copy_val(deref(a[0]))
 
 
 # ---------------------------------------------------------------------------------------------- closures
-@contract(r'as Fn(Mut|Once)?<.*>>::call(_mut|_once)?$')
+@contract(r'^<.* as Fn(Mut|Once)?<.*>>::call(_mut|_once)?$')
 def c_fn_call(m, st, f, a):
     tup = a[1]
     m.invoke(st, a[0], list(tup.f), m.cur_ret)
@@ -1271,3 +1271,201 @@ def c_map_insert(m, st, f, a):
 
 @contract(r'^HashMap::<.*>::clear$', 3)
 def c_map_clear(m, st, f, a): deref(a[0]).entries[:] = []; return UNIT
+
+
+# ---------------------------------------------------------------------------------------------- sync primitives
+# Sequentially consistent cells. With the thread scheduler of stage S5 installed (m.hooks['sched']) these calls are the
+# schedule points; a lock is an owner field.
+def _sched(m, st, what, obj=None):
+    h = m.hooks.get('sched')
+    if h: h(m, st, what, obj)
+
+
+@contract(r'^(std::sync::)?Mutex::<.*>::new$|^(std::sync::)?RwLock::<.*>::new$', 3)
+def c_mutex_new(m, st, f, a): return Agg([a[0], None], 'Mutex')
+
+
+@contract(r'^(std::sync::)?Mutex::<.*>::lock$', 3)
+def c_mutex_lock(m, st, f, a):
+    r = a[0]
+    _sched(m, st, 'lock', r)
+    h = m.hooks.get('lock')
+    if h: h(m, st, r)
+    return ok(Ref(r.cell, r.path + (0,), meta=('guard', r)))
+
+
+@contract(r'^(std::sync::)?Mutex::<.*>::(into_inner|get_mut)$', 3)
+def c_mutex_into_inner(m, st, f, a):
+    if f.endswith('get_mut'): return ok(Ref(a[0].cell, a[0].path + (0,)))
+    return ok(a[0].f[0])
+
+
+@contract(r'^(Atomic|std::sync::atomic::Atomic(Bool|Usize|U32|U64)?)(::<.*>)?::new$', 3)
+def c_atomic_new(m, st, f, a): return Agg([a[0]], 'Atomic')
+
+
+@contract(r'^(Atomic|std::sync::atomic::Atomic(Bool|Usize|U32|U64)?)(::<.*>)?::load$', 3)
+def c_atomic_load(m, st, f, a):
+    _sched(m, st, 'load', a[0])
+    return copy_val(sv(a[0]).f[0])
+
+
+@contract(r'^(Atomic|std::sync::atomic::Atomic(Bool|Usize|U32|U64)?)(::<.*>)?::store$', 3)
+def c_atomic_store(m, st, f, a):
+    _sched(m, st, 'store', a[0])
+    sv(a[0]).f[0] = a[1]; return UNIT
+
+
+@contract(r'^(Atomic|std::sync::atomic::Atomic(Bool|Usize|U32|U64)?)(::<.*>)?::(swap|fetch_add|fetch_or|fetch_and)$', 3)
+def c_atomic_rmw(m, st, f, a):
+    _sched(m, st, 'rmw', a[0])
+    c = sv(a[0]); old = c.f[0]
+    op = f.rsplit('::', 1)[1]
+    c.f[0] = a[1] if op == 'swap' else binop({'fetch_add': 'Add', 'fetch_or': 'BitOr', 'fetch_and': 'BitAnd'}[op], old, a[1])
+    return old
+
+
+# ---------------------------------------------------------------------------------------------- tuples / enums: Ord, PartialEq, Clone, Hash
+def _cmp_vals(m, st, x, y):
+    """-1/0/1 (forks on symbolic data)"""
+    x, y = sv(x), sv(y)
+    if isinstance(x, IntV):
+        if bool_val(m, st, binop('Lt', x, y)): return -1
+        if bool_val(m, st, binop('Eq', x, y)): return 0
+        return 1
+    if isinstance(x, bool) or isinstance(x, z3.BoolRef):
+        bx, by = bool_val(m, st, x), bool_val(m, st, y)
+        return (bx > by) - (bx < by)
+    if isinstance(x, Enum):
+        dx, dy = disc_of(m, st, x), disc_of(m, st, y)
+        if dx != dy: return -1 if dx < dy else 1
+        px, py = x.payload.get(dx), y.payload.get(dy)
+        if px is None or not px.f: return 0
+        return _cmp_vals(m, st, px, py)
+    if isinstance(x, Agg):
+        for p, q in zip(x.f, y.f):
+            c = _cmp_vals(m, st, p, q)
+            if c: return c
+        return (len(x.f) > len(y.f)) - (len(x.f) < len(y.f))
+    if isinstance(x, StrV):
+        for i in range(min(x.len, y.len)):
+            bx, by = x.byte(i), y.byte(i)
+            c = _cmp_vals(m, st, IntV(bx, 'u8'), IntV(by, 'u8'))
+            if c: return c
+        return (x.len > y.len) - (x.len < y.len)
+    raise Inconclusive('comparison of %r' % (x,))
+
+
+@contract(r'^<\(.*\) as (Ord|PartialOrd)>::(cmp|partial_cmp)$|^<(ReplacementEnforce|std::cmp::Ordering) as (Ord|PartialOrd)>::(cmp|partial_cmp)$', 3)
+def c_tuple_cmp(m, st, f, a):
+    c = _cmp_vals(m, st, a[0], a[1])
+    e = Enum('Ordering', c, {})
+    return some(e) if 'partial_cmp' in f else e
+
+
+def _eq_vals(m, st, x, y):
+    x, y = sv(x), sv(y)
+    if isinstance(x, IntV): return binop('Eq', x, y)
+    if isinstance(x, (bool, z3.BoolRef)): return binop('Eq', x, y)
+    if isinstance(x, StrV):
+        if not isinstance(y, StrV): y = as_str(y)
+        return str_eq(x, y)
+    if isinstance(x, RopeV): return str_eq(x.flat(), y.flat() if isinstance(y, RopeV) else as_str(y))
+    if isinstance(x, Enum):
+        dx, dy = disc_of(m, st, x), disc_of(m, st, y)
+        if dx != dy: return False
+        px, py = x.payload.get(dx), y.payload.get(dy)
+        if px is None or not px.f: return True
+        return _eq_vals(m, st, px, py)
+    if isinstance(x, Agg):
+        if len(x.f) != len(y.f): return False
+        return b_and(*[_eq_vals(m, st, p, q) for p, q in zip(x.f, y.f)])
+    if isinstance(x, Unit): return True
+    raise Inconclusive('structural equality of %r' % (x,))
+
+
+@contract(r'^<(\(.*\)|std::option::Option<.*>|Option<.*>|Vec<.*>|\[.*\]|&\[.*\]|&Vec<.*>|Arc<\[.*\]>|ReplacementEnforce) as PartialEq(<.*>)?>::(eq|ne)$', 6)
+def c_struct_eq(m, st, f, a):
+    r = _eq_vals(m, st, a[0], a[1])
+    return b_not(r) if f.endswith('::ne') else r
+
+
+# ---------------------------------------------------------------------------------------------- sorting
+class SortFrame(Native):
+    """insertion sort driven by the caller's comparison closure (stable). For *_unstable_* sorts equal elements are
+    deliberately reordered (swapped): the API leaves their order unspecified, so code relying on it is reported."""
+
+    def __init__(self, items, clo, mode, stable, ret, finish):
+        self.items, self.clo, self.mode, self.stable, self.ret, self.finish = items, clo, mode, stable, ret, finish
+        self.i, self.j, self.wait, self.keys = 1, 1, None, None
+
+    def step(self, m, st):
+        if self.items is None: raise Inconclusive('SortFrame stepped before its input was collected')
+        if self.mode == 'key' and self.keys is None:
+            self.keys = []; self.wait = 'key'
+        if self.wait == 'key':
+            if len(self.keys) < len(self.items):
+                m.invoke(st, self.clo, [Ref(Cell(self.items[len(self.keys)]))], ('native',)); return
+            self.wait = None
+        n = len(self.items)
+        if self.i >= n:
+            st.frames.pop(); m.deliver(st, self.ret, self.finish(self.items)); return
+        if self.j == 0:
+            self.i += 1; self.j = self.i; return
+        a, b = self.items[self.j - 1], self.items[self.j]
+        if self.mode == 'key':
+            c = _cmp_vals(m, st, self.keys[self.j - 1], self.keys[self.j]); self.after(c)
+        elif self.mode == 'ord':
+            c = _cmp_vals(m, st, a, b); self.after(c)
+        else:
+            self.wait = 'cmp'
+            m.invoke(st, self.clo, [Ref(Cell(a)), Ref(Cell(b))], ('native',))
+
+    def after(self, c):
+        if c > 0 or (c == 0 and not self.stable):
+            j = self.j
+            self.items[j - 1], self.items[j] = self.items[j], self.items[j - 1]
+            if self.keys is not None: self.keys[j - 1], self.keys[j] = self.keys[j], self.keys[j - 1]
+            self.j -= 1
+        else:
+            self.i += 1; self.j = self.i
+
+    def recv(self, m, st, v):
+        if self.items is None:
+            self.items = list(v.f); return
+        if self.wait == 'key':
+            self.keys.append(v); return
+        self.wait = None
+        c = v.disc if isinstance(v.disc, int) else to_signed(m.concretize(st, IntV(v.disc, 'i8'), [255, 0, 1]), 'i8')
+        self.after(c)
+
+
+def _sort(m, st, f, src, clo, mode, stable, finish, in_place_ref=None):
+    fr = SortFrame(None, clo, mode, stable, m.cur_ret, finish)
+    st.frames.append(fr)
+    v = sv(src) if isinstance(src, Ref) else src
+    if isinstance(v, Agg) and v.ty != 'closure' and not isinstance(v, Iter):
+        fr.items = list(v.f); return PUSHED
+    if isinstance(v, Iter) and not v.ops and v.src is None:
+        fr.items = v.items[v.pos:]; return PUSHED
+    base = v if isinstance(v, Iter) else crate_iter(m, f, src)
+    if base is None: raise Inconclusive('sort input %r' % (v,))
+    st.frames.append(IterDriver(base, 'collect', None, ('native',)))
+    return PUSHED
+
+
+@contract(r'^<.* as Itertools>::(sorted_by|sorted_by_key|sorted|sorted_unstable_by|sorted_unstable_by_key|sorted_unstable)(::<.*)?$', 3)
+def c_itertools_sorted(m, st, f, a):
+    op = re.search(r'Itertools>::(\w+)', f).group(1)
+    mode = 'key' if op.endswith('by_key') else ('cmp' if op.endswith('_by') else 'ord')
+    return _sort(m, st, f, a[0], a[1] if len(a) > 1 else None, mode, 'unstable' not in op, lambda items: Iter(items))
+
+
+@contract(r'^([a-z_]+::)*slice::<impl \[.*\]>::(sort_by|sort_by_key|sort|sort_unstable_by|sort_unstable_by_key|sort_unstable|sort_by_cached_key)(::<.*)?$', 3)
+def c_slice_sort(m, st, f, a):
+    op = re.search(r'::(sort\w*)', f).group(1)
+    mode = 'key' if op.endswith('_key') else ('cmp' if op.endswith('_by') else 'ord')
+    v, r = seq_of(a[0])
+    def fin(items, v=None):
+        tgt = sv(r); tgt.f[:] = items; return UNIT
+    return _sort(m, st, f, a[0], a[1] if len(a) > 1 else None, mode, 'unstable' not in op, fin)
